@@ -413,7 +413,7 @@ pub fn pairs(u: u32, dom: u8, max: usize) -> BoxedStrategy<Vec<Pair>> {
 
 fn pair_len_bound(p: &Profile) -> usize {
     if p.big {
-        300
+        1100
     } else if p.max_ops > 100 {
         200
     } else {
@@ -534,7 +534,9 @@ pub fn op_strategy(p: &Profile, kind: Kind, u: u32, dom: u8) -> BoxedStrategy<Op
     Union::new_weighted(v).boxed()
 }
 
-pub const ALL_COMPS: [Comp; 40] = [
+pub const ALL_COMPS: [Comp; 42] = [
+    Comp::BothEndsThenFold,
+    Comp::BothEndsThenCount,
     Comp::BacksThenFold,
     Comp::BacksThenCount,
     Comp::BacksThenLast,
@@ -579,7 +581,7 @@ pub const ALL_COMPS: [Comp; 40] = [
 
 pub fn ctor_strategy(p: &Profile, u: u32, dom: u8) -> BoxedStrategy<Ctor> {
     // (weight, lo, hi) size classes; the vector itself shrinks towards `lo` elements
-    let classes: Vec<(u32, usize, usize)> = if p.big { vec![(4, 50, 130), (2, 64, 260), (1, 513, 1100)] } else { vec![
+    let classes: Vec<(u32, usize, usize)> = if p.big { vec![(8, 50, 130), (4, 64, 260), (2, 513, 1100), (1, 1020, 1300)] } else { vec![
         (p.size_w[0], 0, 0),
         (p.size_w[1], 0, 1),
         (p.size_w[2], 1, 2),
